@@ -11,6 +11,7 @@ package run_test
 // evaluation written from the InfluxQL documentation over the deduplicated raw points.
 
 import (
+	"strconv"
 	"fmt"
 	"math"
 	"os"
@@ -167,7 +168,9 @@ func vqFmt(v interface{}) string {
 		if x == math.Trunc(x) && math.Abs(x) < 1e15 {
 			return fmt.Sprintf("%d", int64(x))
 		}
-		return fmt.Sprintf("%v", x)
+		// 12 significant digits: a mean over several shards is combined from partial means and may differ
+		// from the single-shard mean in the last units of precision (stated tolerance of the oracle)
+		return strconv.FormatFloat(x, 'g', 12, 64)
 	case int64:
 		return fmt.Sprintf("%d", x)
 	case uint64:
@@ -340,10 +343,20 @@ func vqReference(s vqStmt, pts []vqPoint) vqCanon {
 				}
 			}
 			return fieldStr(best), best.T, true
-		case "first":
-			return fieldStr(vs[0]), vs[0].T, true
-		case "last":
-			return fieldStr(vs[len(vs)-1]), vs[len(vs)-1].T, true
+		case "first", "last":
+			// several series of one output group may hold a point at the same extreme timestamp: the reducers
+			// (query.*FirstReduce / *LastReduce) then keep the LARGER value, which is what makes the answer
+			// independent of the order in which series and shards are merged
+			best := vs[0]
+			for _, v := range vs[1:] {
+				switch {
+				case s.Call == "first" && v.T < best.T, s.Call == "last" && v.T > best.T:
+					best = v
+				case v.T == best.T && num(v) > num(best):
+					best = v
+				}
+			}
+			return fieldStr(best), best.T, true
 		case "spread":
 			mn, mx := vs[0], vs[0]
 			for _, v := range vs[1:] {
@@ -523,7 +536,7 @@ func TestVerifC11QueryLayouts(t *testing.T) {
 		hosts := []string{"a", "b", "c"}[:rapid.IntRange(1, 3).Draw(rt, "nhosts")]
 		regions := []string{"x", "y"}[:rapid.IntRange(1, 2).Draw(rt, "nregions")]
 		span := rapid.SampledFrom([]int64{3600 * 5, 86400 * 2, 86400 * 10}).Draw(rt, "span")
-		uniqueTS := rapid.IntRange(0, 4).Draw(rt, "uniqueTS") > 0
+		uniqueTS := rapid.IntRange(0, 4).Draw(rt, "uniqueTS") > 1
 		np := rapid.IntRange(1, 80).Draw(rt, "np")
 		used := map[int64]bool{}
 		var batch1, batch2 []vqPoint
@@ -538,6 +551,44 @@ func TestVerifC11QueryLayouts(t *testing.T) {
 				used[p.TS] = true
 			}
 			batch1 = append(batch1, p)
+		}
+		// ties: points of OTHER series at the timestamp of an existing point (in particular at the earliest and the
+		// latest one), with different values - first()/last()/min()/max() and LIMIT must not depend on which of
+		// them a layout happens to merge first
+		if !uniqueTS && len(hosts)*len(regions) >= 2 {
+			lo, hi := 0, 0
+			for i, p := range batch1 {
+				if p.TS < batch1[lo].TS {
+					lo = i
+				}
+				if p.TS > batch1[hi].TS {
+					hi = i
+				}
+			}
+			cands := []int{lo, hi}
+			for i := rapid.IntRange(0, 3).Draw(rt, "extraTies"); i > 0; i-- {
+				cands = append(cands, rapid.IntRange(0, len(batch1)-1).Draw(rt, "tieOf"))
+			}
+			for _, ci := range cands {
+				if rapid.IntRange(0, 3).Draw(rt, "tie") == 0 {
+					continue
+				}
+				q := batch1[ci]
+				for tries := 0; tries < 8 && q.Host == batch1[ci].Host && q.Region == batch1[ci].Region; tries++ {
+					q.Host = rapid.SampledFrom(hosts).Draw(rt, "tieHost")
+					q.Region = rapid.SampledFrom(regions).Draw(rt, "tieRegion")
+				}
+				if q.Host == batch1[ci].Host && q.Region == batch1[ci].Region {
+					continue
+				}
+				d := rapid.IntRange(1, 40).Draw(rt, "tieDelta")
+				if rapid.Bool().Draw(rt, "tieLower") {
+					d = -d
+				}
+				q.F += float64(d) / 4
+				q.I += int64(d)
+				batch1 = append(batch1, q)
+			}
 		}
 		// overwrites: same series + time, new values, written later
 		nov := rapid.IntRange(0, 5).Draw(rt, "noverwrites")
@@ -577,6 +628,13 @@ func TestVerifC11QueryLayouts(t *testing.T) {
 			want := vqReference(s, all)
 			vqDropSelectorTime(s, want)
 			skipRef := s.Fill == "linear" // edges of linear fill are not pinned down by the documentation
+			if s.Fill == "previous" && s.Desc {
+				// observation, not judged: with ORDER BY time DESC the engine fills a window from the window that
+				// precedes it in OUTPUT order (the chronologically later one); the documentation only says "the
+				// previous time interval". The layouts must still agree with each other.
+				skipRef = true
+				stats.Class("observation:fill-previous-desc-fills-from-later-window", 1)
+			}
 			var first string
 			var firstWhere string
 			for _, l := range vqLayouts {
@@ -636,10 +694,7 @@ func vqDrawStmt(rt *rapid.T, hosts []string, span int64, uniqueTS bool) vqStmt {
 	var s vqStmt
 	s.Field = rapid.SampledFrom([]string{"f", "f", "i", "i", "s", "b"}).Draw(rt, "field")
 	numeric := s.Field == "f" || s.Field == "i"
-	calls := []string{"", "count", "sum", "mean", "min", "max", "spread", "median"}
-	if uniqueTS {
-		calls = append(calls, "first", "last")
-	}
+	calls := []string{"", "count", "sum", "mean", "min", "max", "spread", "median", "first", "last"}
 	if numeric {
 		s.Call = rapid.SampledFrom(calls).Draw(rt, "call")
 	}
